@@ -114,6 +114,7 @@ def new_rec(lock: bool = False) -> Rec:
 def reset_program() -> None:
     BEH.clear()
     FAIL.clear()
+    FAIL_IF.clear()
     KIND.clear()
     HOOK.clear()
 
@@ -178,6 +179,9 @@ def _norm(kw: dict) -> dict:
     return kw
 
 
+FAIL_IF: dict[str, Any] = {}  # fid -> (predicate(kwargs) -> bool, exception object)
+
+
 def _body(fid: str, kw: dict):
     h = HOOK.get(fid)
     if h is not None:
@@ -185,6 +189,9 @@ def _body(fid: str, kw: dict):
     exc = FAIL.get(fid)
     if exc is not None:
         raise exc
+    fi = FAIL_IF.get(fid)
+    if fi is not None and fi[0](kw):
+        raise fi[1]
     return BEH[fid](kw)
 
 
